@@ -23,6 +23,25 @@ pub fn program(n: usize) {
     o.on = true;
 }
 
+/// C11: every one of the first `n` oracle queries carries a DST that starts with `api` (the api_id of
+/// the interface under which the entry point was called), i.e. nothing is hashed under another
+/// suite's or interface's domain
+pub fn all_dsts_start_with(n: usize, api: &[u8]) -> bool {
+    let o = oracle();
+    let mut ok = true;
+    let mut k = 0;
+    while k < n {
+        ok = ok && o.dst_len[k] >= api.len();
+        let mut i = 0;
+        while i < api.len() {
+            ok = ok && o.dst_head[k][i] == api[i];
+            i += 1;
+        }
+        k += 1;
+    }
+    ok
+}
+
 pub fn msg_len<const MLEN0: usize>(i: usize) -> usize {
     (i + MLEN0) % 3
 }
@@ -49,6 +68,7 @@ where
     o.on = false;
     let api_len = rsuite::<CS>().api_id(false).len();
     assert!(o.n == L + 1, "C01/C10: verify made an unexpected number of oracle queries");
+    assert!(all_dsts_start_with(L + 1, &rsuite::<CS>().api_id(false)), "C11: verify hashed something under a DST that does not start with the plain interface's api_id");
     let gens = stubs::ref_gens(L + 1, false);
     let mut ms = Vec::new();
     let mut i = 0;
@@ -101,6 +121,7 @@ where
     assert!(r.is_ok(), "C01: sign failed on a valid input");
     let api_len = rsuite::<CS>().api_id(false).len();
     assert!(o.n == L + 2, "C01/C10: sign made an unexpected number of oracle queries");
+    assert!(all_dsts_start_with(L + 2, &rsuite::<CS>().api_id(false)), "C11: sign hashed something under a DST that does not start with the plain interface's api_id");
     let hl = hdr.map(|h| h.len()).unwrap_or(0);
     assert!(o.msg_len[L] == 96 + 8 + 48 * (L + 1) + api_len + 8 + hl && o.dst_len[L] == api_len + H2S_EXTRA, "C10: domain query has the wrong length");
     assert!(o.msg_len[L + 1] == 32 * (L + 2) && o.dst_len[L + 1] == api_len + H2S_EXTRA, "C10: e query has the wrong length");
